@@ -367,6 +367,10 @@ def main(report, tier, seed, workers, calibrate=False):
         st = res['stats']
         solver.STATS.queries += st['queries']
         solver.STATS.seconds += st['solver_seconds']
+        for k_, v_ in st.get('by_verdict', {}).items():
+            solver.STATS.by_verdict[k_] = solver.STATS.by_verdict.get(k_, 0) + v_
+        for k_, v_ in st.get('by_backend', {}).items():
+            solver.STATS.by_backend[k_] = solver.STATS.by_backend.get(k_, 0) + v_
         report.extra.setdefault('sympy_seconds', {})[res['name']] = res['sympy_seconds']
         if res['error']:
             report.harness_errors.append(f"{res['name']}: translation failed: {res['error']}")
